@@ -25,12 +25,26 @@ func zzQuote(args []string) string {
 	return strings.Join(parts, " ")
 }
 
+// zzQuoteWhenNeeded leaves a word bare when it contains nothing that needs
+// quoting (no blank, quote or backslash, not empty) - also a documented way.
+func zzQuoteWhenNeeded(args []string) string {
+	var parts []string
+	for _, a := range args {
+		if a != "" && !strings.ContainsAny(a, " \t\"'\\") {
+			parts = append(parts, a)
+			continue
+		}
+		parts = append(parts, zzQuote([]string{a}))
+	}
+	return strings.Join(parts, " ")
+}
+
 func TestZZVerifRoundTrip(t *testing.T) {
 	K, _ := strconv.Atoi(os.Getenv("VERIF_C17_K"))
 	if K == 0 {
 		t.Skip("VERIF_C17_K not set")
 	}
-	alphabet := []rune{'a', ' ', '\t', '"', '\'', '\\', '-', '$', 'é'}
+	alphabet := []rune{'a', ' ', '\t', '"', '\'', '\\', '-', '$', 'é', 'à'}
 	checked, maxq := 0, 0
 	var fail []string
 	var gen func(args []string, cur []rune, budget int)
@@ -39,11 +53,13 @@ func TestZZVerifRoundTrip(t *testing.T) {
 		if n := len([]rune(q)); n > maxq {
 			maxq = n
 		}
-		got, err := Parse(q)
-		checked++
-		if err != nil || !reflect.DeepEqual(got, args) {
-			if len(fail) < 5 {
-				fail = append(fail, fmt.Sprintf("args=%q quoted=%q got=%q err=%v", args, q, got, err))
+		for _, q := range []string{q, zzQuoteWhenNeeded(args)} {
+			got, err := Parse(q)
+			checked++
+			if err != nil || !reflect.DeepEqual(got, args) {
+				if len(fail) < 5 {
+					fail = append(fail, fmt.Sprintf("args=%q quoted=%q got=%q err=%v", args, q, got, err))
+				}
 			}
 		}
 	}
